@@ -166,7 +166,10 @@ func registerVerifrt(m map[string]modelFn) {
 			for j := 0; j < len(alpha); j++ {
 				ok = smt.Or(ok, smt.Eq(b, byteConst[alpha[j]]))
 			}
-			e.assume(ok)
+			if len(alpha) == 0 {
+				e.abort("assume", "empty alphabet")
+			}
+			e.addPC(ok) // a fresh variable constrained to a non-empty set: always satisfiable
 			r[i] = b
 		}
 		if n == 0 {
